@@ -468,6 +468,13 @@ fn history_inputs(t: &mut Tape, cfg: &crate::cfggen::CfgInfo) -> Vec<(String, St
     }
     // one literal value at a dozen places (the literals report is a set: nothing about it may depend on the call)
     pool.push((format!("function f(a) {{ return [{}].concat(a + a); }}\n", vec!["'content-type-header'"; 12].join(", ")), "/app/src/dozen.js".to_string()));
+    // pairs of files of the same length whose operations sit at the same byte offsets: a literal-only sum in one, an
+    // ordinary sum in the other (anything remembered per source position from an earlier call shows)
+    pool.push(("function f(unit) { const size = 10 - 2 + unit; return size; }\n".to_string(), "/app/src/sum_a.js".to_string()));
+    pool.push(("function f(unit) { const size = 10 + 2 + unit; return size; }\n".to_string(), "/app/src/sum_b.js".to_string()));
+    pool.push(("function f(win) { const size = 'w' + 20 + 'px'; return size; }\n".to_string(), "/app/src/px_a.js".to_string()));
+    pool.push(("function f(win) { const size = win * 20 + 'px'; return size; }\n".to_string(), "/app/src/px_b.js".to_string()));
+    pool.push(("function f(unit) { const size = 10 - 2 + unit; return size; }\n".to_string(), "/app/src/sum_b.js".to_string()));
     // needs no temporary at all / exactly one: anything left over from an earlier call shows
     pool.push(("function f(a, b) { return a + b; }\n".to_string(), "/app/src/notemps.js".to_string()));
     pool.push(("function f(a, b) { { return a() + b; } }\n".to_string(), "/app/src/onetemp.js".to_string()));
@@ -514,6 +521,18 @@ impl Check for C16 {
                 c = info_from_json(&j);
             }
             cfgs.push(c);
+        }
+        if cfgs.len() >= 2 && t.chance(70) {
+            // two rewriters that name the same hooks in another order and multiplicity
+            let mut j = cfgs[0].json.clone();
+            if let Some(list) = j["csiMethods"].as_array().cloned() {
+                if list.len() >= 2 {
+                    let mut l2: Vec<Value> = list.iter().rev().cloned().collect();
+                    l2.push(list[list.len() - 1].clone());
+                    j["csiMethods"] = Value::Array(l2);
+                    cfgs[1] = info_from_json(&j);
+                }
+            }
         }
         let pool = history_inputs(&mut t, &cfgs[0]);
         let mut calls = vec![];
